@@ -352,15 +352,16 @@ def onCreate (C : Crypto Tag Sess Blob) (n : Node Sess) (cid ident : Nat) (nodeP
        [⟨nodePk, .created cid ident (some pk) auth (C.enc keys offered)⟩])
 
 /-- join_circuit on its own — what runs when an on_create that was SUSPENDED in an overridden, really awaiting
-    `should_join_circuit` resumes (the in-use guards of on_create were evaluated before the suspension).  The only
-    re-check is the CreatedRequestCache constructor, which raises RuntimeError for an id that is being joined already;
-    it runs after the DH and BEFORE the exit socket is installed, so nothing is written in that case. -/
+    `should_join_circuit` resumes.  Since fix 82c67e3 on_create repeats its in-use guards after the await (created
+    cache, circuits, relay routes, exit sockets) before it calls join_circuit; before that fix only the
+    CreatedRequestCache constructor (RuntimeError for an id that is being joined already) stood in the way. -/
 def joinCircuit (C : Crypto Tag Sess Blob) (n : Node Sess) (cid ident : Nat) (nodePk : Key) (key : Option Wire)
     (y : Key) (offered : List Key) : Node Sess × List (Out Tag Blob) :=
   match key with
   | none => (n, [])
   | some w =>
     if (n.created cid).isSome then (n, [])
+    else if (n.circuits cid).isSome || (n.relays cid).isSome || (n.exits cid).isSome then (n, [])   -- re-check, fix 82c67e3
     else
       let (secret, pk, auth) := genSharedSecret C y n.me w
       let keys := C.kdf secret
@@ -427,6 +428,30 @@ def step [DecidableEq Tag] (C : Crypto Tag Sess Blob) (n : Node Sess) : Ev Tag B
   | .extend cid ident nodePk key ag toCid number => onExtend n cid ident nodePk key ag toCid number
   | .createdExpire cid => ({ n with created := upd n.created cid none }, [])
   | .createExpire number => ({ n with creates := upd n.creates number none }, [])
+
+/-! ### the cell layer in front of the handlers
+
+Every tunnel message arrives in a cell.  `PythonCryptoEndpoint.process_cell` (the listener for ALL interfaces of the
+node's endpoint) hands a cell to the community only if it is a plaintext cell whose message id is in
+`NO_CRYPTO_PACKETS`, or if it decrypted under the session keys of the circuit it names (`authentic`).  The onion
+layering itself is property C04; here only its consequence for the handshake handlers is modelled. -/
+
+/-- message id of the handler an event enters (0 for events that are not cells) -/
+def Ev.msgId : Ev Tag Blob → Nat
+  | .create .. => genMsgIdCreate
+  | .created .. => genMsgIdCreated
+  | .extend .. => genMsgIdExtend
+  | .extended .. => genMsgIdExtended
+  | _ => 0
+
+/-- the event is the arrival of a cell from the network -/
+def Ev.isCell (e : Ev Tag Blob) : Bool := e.msgId != 0
+
+/-- a cell reaches its handler only if it may be plaintext or is authentic; everything else is dropped before any
+    handler runs -/
+def deliverCell [DecidableEq Tag] (C : Crypto Tag Sess Blob) (n : Node Sess) (authentic : Bool) (e : Ev Tag Blob) :
+    Node Sess × List (Out Tag Blob) :=
+  if e.isCell && !authentic && !genNoCryptoPackets.contains e.msgId then (n, []) else step C n e
 
 def run [DecidableEq Tag] (C : Crypto Tag Sess Blob) (n : Node Sess) : List (Ev Tag Blob) → Node Sess
   | [] => n
